@@ -461,6 +461,8 @@ def run_config(prop, cfg_id, scenario, params, opts):
             # the code, e.g. numerically regularised singular solves); counted separately, never as a solver result
             res.setdefault("real_only_runs", 0)
             res["real_only_runs"] += 1
+            if cr.claims:
+                res["real_only_with_claims"] = res.get("real_only_with_claims", 0) + 1
             for c in cr.claims:
                 if c["status"] == "failed":
                     res["violations"].append({"claim": c["name"], "detail": c["detail"], "source": "concrete-seeded",
@@ -526,6 +528,9 @@ def run_config(prop, cfg_id, scenario, params, opts):
             res["shim_validation"]["agree"] += 1
         else:
             res["harness_errors"].append("shim/torch disagreement (seed %d): %s" % (seed, why))
+    if real_only and not res.get("real_only_with_claims") and not res["violations"]:
+        # vacuity guard: every seeded input was outside the scenario's assumptions
+        res["harness_errors"].append("auxiliary concrete configuration evaluated no claim on any of its %d seeded inputs" % nval)
     if opts.get("concrete_only") or real_only:
         res["wall_s"] = round(time.time() - t0, 2)
         return res
